@@ -122,10 +122,10 @@ pub mod su;
 
 // Harness modules are selected per run by /verif/check (it writes this file before building), so
 // that one property's run does not pay code generation for every other property's harnesses.
-include!("/verif/.cache/select_server.rs");
+include!(concat!(env!("VERIF_SELECT_DIR"), "/select_server.rs"));
 
 // Concrete-playback unit tests generated from counterexamples (written by `check` on demand).
 #[cfg(test)]
 mod playback {
-    include!("/verif/.cache/playback_tests_server.rs");
+    include!(concat!(env!("VERIF_SELECT_DIR"), "/playback_tests_server.rs"));
 }
